@@ -146,6 +146,9 @@ def dag(shape, comps=None, vols=None, data=None):
         "fork3": (4, [(0, 1), (0, 2), (0, 3)]),
         "join": (3, [(0, 2), (1, 2)]),
         "diamond": (4, [(0, 1), (0, 2), (1, 3), (2, 3)]),
+        "bfly": (4, [(0, 2), (0, 3), (1, 2), (1, 3)]),
+        "bfly3": (5, [(0, 2), (0, 3), (0, 4), (1, 2), (1, 3), (1, 4)]),
+        "wjoin": (4, [(0, 3), (1, 3), (2, 3)]),
     }
     n, edges = shapes[shape]
     if comps is None:
